@@ -22,7 +22,7 @@
          ShellCommandRequirement it is what the inner /bin/sh -c receives after the base64 round trip,
          which is not modelled) ; streamflow.core.utils.create_command is Shell.Model.create_command.
    The binding language modelled: string / int / boolean / null scalars, arrays of such with a binding on
-   the array (no binding on the items, no records, no File), valueFrom restricted to a literal, $(self)
+   the array and/or on its items (no records, no File), valueFrom restricted to a literal, $(self)
    or $(inputs.<name>), integer positions, baseCommand list, arguments. *)
 From Coq Require Import Ascii Bool NArith ZArith.
 From SF Require Import Base.Str Base.Dec Shell.Model.
@@ -95,7 +95,8 @@ Record binding := mkB {
   b_quote : option bool;                 (* shellQuote; None = not written *)
   b_vf : vfrom }.
 
-Record input := mkI { i_name : string; i_arr : bool; i_bind : option binding }.
+(* i_item: the inputBinding written INSIDE the array type (on the items); only for array inputs *)
+Record input := mkI { i_name : string; i_arr : bool; i_bind : option binding; i_item : option binding }.
 Record tool := mkT { t_shell : bool; t_base : list string; t_args : list binding; t_inputs : list input }.
 Definition job := list (string * value).
 
@@ -145,8 +146,12 @@ Definition spec_generate (b : binding) (v : value) : list string :=
   end.
 
 (* sort keys: [position, index] for arguments, [position, name] for inputs *)
-Inductive skey := KArg (pos : Z) (idx : N) | KIn (pos : Z) (name : string).
-Definition key_pos (k : skey) : Z := match k with KArg p _ | KIn p _ => p end.
+(* read off cwltool (Builder.bind_input, instrumented): an array WITH a binding of its own has key [pos, name] and its
+   items [pos, name, n, itempos, name, name] -- they sort right behind it, in index order, whatever itempos is, so
+   the group is ONE entry here (KIn); the items of an array WITHOUT a binding of its own have key
+   [n, itempos, name, name]: the item INDEX comes first and is compared with the POSITIONS of the other bindings (KItem). *)
+Inductive skey := KArg (pos : Z) (idx : N) | KIn (pos : Z) (name : string) | KItem (n : N) (ipos : Z) (name : string).
+Definition key_pos (k : skey) : Z := match k with KArg p _ | KIn p _ => p | KItem n _ _ => Z.of_N n end.
 
 (* cmp_like_py2 on two keys of length 2: strictly less *)
 Definition spec_lt (a b : skey) : bool :=
@@ -157,6 +162,12 @@ Definition spec_lt (a b : skey) : bool :=
        | KArg _ i, KIn _ n => String.ltb (dec i) n      (* an int and a str compare as str *)
        | KIn _ n, KArg _ j => String.ltb n (dec j)
        | KIn _ n, KIn _ m => String.ltb n m
+       (* [n, ipos, x, x] against [pos, idx] / [pos, name] with n = pos: second components *)
+       | KItem _ ip _, KArg _ j => Z.ltb ip (Z.of_N j)
+       | KArg _ i, KItem _ ip _ => Z.ltb (Z.of_N i) ip
+       | KItem _ ip _, KIn _ m => String.ltb (zstr ip) m
+       | KIn _ n, KItem _ ip _ => String.ltb n (zstr ip)
+       | KItem _ ip x, KItem _ iq y => if Z.ltb ip iq then true else if Z.ltb iq ip then false else String.ltb x y
        end.
 
 (* stable insertion sort: [x] is earlier in the input than every element of [l] *)
@@ -209,8 +220,33 @@ Definition spec_input (t : tool) (j : job) (i : input) : list (skey * list piece
       else spec_entry (KIn (b_pos b) (i_name i)) (spec_gen_pieces (quoted (t_shell t) b) b (eval_vf b j v))
   end.
 
+(* ---- arrays whose items carry a binding of their own (no valueFrom on it) *)
+Definition spec_item_pieces (t : tool) (ib : binding) (it : sval) : list piece :=
+  map (fun s => (s, quoted (t_shell t) ib)) (spec_generate ib (Sc it)).
+Fixpoint spec_item_entries (t : tool) (ib : binding) (x : string) (n : N) (l : list sval) : list (skey * list piece) :=
+  match l with
+  | [] => []
+  | it :: r => spec_entry (KItem n (b_pos ib) x) (spec_item_pieces t ib it) ++ spec_item_entries t ib x (N.succ n) r
+  end.
+Definition spec_item_input (t : tool) (j : job) (i : input) (ib : binding) : list (skey * list piece) :=
+  match lookup j (i_name i) with
+  | Arr l =>
+      match i_bind i with
+      | None => spec_item_entries t ib (i_name i) 0%N l
+      | Some ob =>          (* the array's own binding gives its prefix; the items follow in index order *)
+          match l with
+          | [] => []
+          | _ => spec_entry (KIn (b_pos ob) (i_name i))
+                   (map (fun s => (s, quoted (t_shell t) ob)) (spec_pre ob) ++ flat_map (spec_item_pieces t ib) l)
+          end
+      end
+  | Sc _ => []
+  end.
+Definition spec_input' (t : tool) (j : job) (i : input) : list (skey * list piece) :=
+  match i_item i with None => spec_input t j i | Some ib => spec_item_input t j i ib end.
+
 Definition spec_bindings (t : tool) (j : job) : list (skey * list piece) :=
-  spec_args t j 0%N (t_args t) ++ flat_map (spec_input t j) (t_inputs t).
+  spec_args t j 0%N (t_args t) ++ flat_map (spec_input' t j) (t_inputs t).
 
 (* baseCommand has key [-1000000, index]: first, for every position above -1000000 *)
 Definition spec_pieces (t : tool) (j : job) : list piece :=
@@ -308,8 +344,34 @@ Definition sf_input_token (t : tool) (j : job) (i : input) : list ctoken :=
            end
   end.
 
+(* ---- arrays with a binding on the items: CWLMapCommandTokenProcessor over a CWLCommandTokenProcessor per item;
+   _merge_tokens(ListCommandToken) keeps the index order.  Without a binding on the array the item tokens are
+   placed one by one (position = the item binding's); with one, bind() takes their values, flattened, as its value,
+   and the translator's "do not escape composite command tokens" default applies (_is_forward_only is false). *)
+Definition sf_item_tokens (t : tool) (ib : binding) (x : string) (l : list sval) : list ctoken :=
+  flat_map (fun it => match sf_bind (t_shell t, opt_default true (b_quote ib)) ib (Sc it) with
+                      | Some v => [(Some x, b_pos ib, v)]
+                      | None => [] end) l.
+Definition sf_composite_flags (t : tool) (ob : binding) : bool * bool :=
+  match b_quote ob with None => (true, false) | Some q => (t_shell t, q) end.
+Definition sf_item_input (t : tool) (j : job) (i : input) (ib : binding) : list ctoken :=
+  match lookup j (i_name i) with
+  | Arr l =>
+      match i_bind i with
+      | None => sf_item_tokens t ib (i_name i) l
+      | Some ob =>
+          match sf_bind (sf_composite_flags t ob) ob (Arr (flat_map (fun c => snd c) (sf_item_tokens t ib (i_name i) l))) with
+          | Some v => [(Some (i_name i), b_pos ob, v)]
+          | None => []
+          end
+      end
+  | Sc _ => []
+  end.
+Definition sf_input_token' (t : tool) (j : job) (i : input) : list ctoken :=
+  match i_item i with None => sf_input_token t j i | Some ib => sf_item_input t j i ib end.
+
 Definition sf_tokens (t : tool) (j : job) : list ctoken :=
-  flat_map (sf_arg_token t j) (t_args t) ++ flat_map (sf_input_token t j) (t_inputs t).
+  flat_map (sf_arg_token t j) (t_args t) ++ flat_map (sf_input_token' t j) (t_inputs t).
 
 Definition sf_sorted (t : tool) (j : job) : list ctoken := isort sf_lt tok_key (sf_tokens t j).
 
@@ -339,3 +401,14 @@ Definition sf_stderr_target (stdout stderr : option string) : option string :=
   let e1 := match e with SDevnull => SStr "/dev/null" | x => x end in
   if stream_eqb e1 o then (match o with SStr f => Some f | _ => None end)      (* 2>&1 *)
   else match e1 with SStr f => Some f | _ => None end.
+
+(* EnvVarRequirement: parsed_env = {k: str(eval_expression(v))}; a literal or $(inputs.<string input>) here.  The values
+   reach the tool through create_command's  export K=<shlex.quote(v)> &&  (Shell.Proofs.create_command_tokens). *)
+Definition env_value (j : job) (v : vfrom) : string :=
+  match v with
+  | VfLit s => s
+  | VfIn n => match lookup j n with Sc x => repr x | Arr _ => "" end
+  | _ => ""
+  end.
+Definition sf_env (defs : list (string * vfrom)) (j : job) : list (string * string) :=
+  map (fun kv => (fst kv, env_value j (snd kv))) defs.
